@@ -137,6 +137,15 @@ CASES = {'quick': 1600, 'thorough': 24000}
 SHARDS = {'quick': 16, 'thorough': 16}
 TIMEOUT = {'quick': 1500, 'thorough': 4 * 3600}
 SHRINK_BUDGET = (200, 90.0)
+# coverage-guided shards (vlib/fuzz_shard.py): libFuzzer drives the same history strategy, guided by branch coverage of the
+# pure-Python object layer (plain functions/methods only: numba dispatchers in these modules are left alone)
+FUZZ = {'instrument': ['TidalPy.structures.world_types.basic', 'TidalPy.structures.world_types.tidal',
+                       'TidalPy.structures.world_types.layered', 'TidalPy.structures.world_types.stellar',
+                       'TidalPy.structures.layers.basic', 'TidalPy.structures.layers.physics',
+                       'TidalPy.structures.orbit.base', 'TidalPy.structures.orbit.physics',
+                       'TidalPy.tides.methods.base', 'TidalPy.tides.methods.layered', 'TidalPy.tides.methods.global_approx',
+                       'TidalPy.utilities.classes.model.model', 'TidalPy.utilities.classes.config.config'],
+        'shards': {'quick': 2, 'thorough': 4}, 'cases': {'quick': 120, 'thorough': 4000}, 'max_len': 8192}
 MAX_STEPS = {'quick': 12, 'thorough': 40}
 NARR = 3
 HOST_SPIN_PERIOD = 0.41   # days; the host's own state is fixed, only the world and its orbit have a history
